@@ -887,6 +887,7 @@ pub fn evaluate(ctx: &EvalCtx, w: &World, rep: &mut RunReport) {
     }
 
     let mut stored_by_cache: HashMap<u8, HashSet<H>> = HashMap::new();
+    let mut cache_chunk_entries: HashMap<u8, usize> = HashMap::new();
     let mut any_overlap = false;
     let mut dedup_on_download_path = false;
     let mut sig_words: Vec<u64> = vec![ctx.plan.latency_mode as u64, ctx.faults.len() as u64];
@@ -1168,8 +1169,15 @@ pub fn evaluate(ctx: &EvalCtx, w: &World, rep: &mut RunReport) {
             }
         }
         // C11.b / C11.c against earlier finalized sessions sharing this shard cache
+        let index_cap = env_usize("HF_XET_CHUNK_INDEX_TABLE_MAX_SIZE", 64 << 20);
+        let indexed_upper_bound = *cache_chunk_entries.get(&ss.cache_id).unwrap_or(&0);
         let earlier = stored_by_cache.entry(ss.cache_id).or_default();
-        let defrag_free = so.files.iter().all(|f| matches!(&f.finish, Some(Ok((_, _, m, _))) if m.defrag_prevented_dedup_chunks == 0));
+        // shards fetched through global dedup are registered in the cache as well and are not counted above
+        let indexed_upper_bound = if index_cap < (64 << 20) && st.query_hits > 0 { usize::MAX } else { indexed_upper_bound };
+        if indexed_upper_bound >= index_cap {
+            rep.count("probe:sessions_excluded_from_C11b_by_index_cap", 1);
+        }
+        let defrag_free = indexed_upper_bound < index_cap && so.files.iter().all(|f| matches!(&f.finish, Some(Ok((_, _, m, _))) if m.defrag_prevented_dedup_chunks == 0));
         if !earlier.is_empty() && defrag_free && call_errs == 0 {
             let mut refed = 0u64;
             for p in puts.iter() {
@@ -1209,6 +1217,8 @@ pub fn evaluate(ctx: &EvalCtx, w: &World, rep: &mut RunReport) {
                 }
             }
         }
+        // chunk entries that this session's shards add to the cache's index (upper bound of what gets indexed)
+        *cache_chunk_entries.entry(ss.cache_id).or_insert(0) += xorb_recs.values().map(|c| c.len()).sum::<usize>();
     }
 
     // ---- bookkeeping for evidence
@@ -1286,6 +1296,11 @@ impl Engine for SessionEngine {
         set("MDB_SHARD_MIN_TARGET_SIZE", rng.pick(&[300u64, 1000, 4000, 20_000, 200_000, 64 << 20]).to_string());
         set("INGESTION_BLOCK_SIZE", rng.pick(&[1usize, 4096, 65_536, 100_000, 1 << 20, 8 << 20]).to_string());
         set("MAX_CONCURRENT_UPLOADS", rng.pick(&[1usize, 2, 8]).to_string());
+        // the in-memory chunk index of the shard cache has a cap (a designed exception to C11); small caps make its
+        // bookkeeping matter, the oracle exempts sessions once the true number of indexed chunks may reach the cap
+        if focus == "C11" || rng.chance(1, 4) {
+            set("CHUNK_INDEX_TABLE_MAX_SIZE", rng.pick(&[64usize, 150, 400, 2000, 64 << 20]).to_string());
+        }
         let frag = match focus {
             "C14" => true,
             "C11" => false,
